@@ -245,16 +245,16 @@ func viewTypeKind(t types.Type) *Shape {
 
 // indexSite is one index-addressed access of a container view inside a method of that view.
 type indexSite struct {
-	vi     *viewInfo
-	method *ast.FuncDecl
-	pk     *packages.Package
-	idxE   ast.Expr
-	idx    int64
+	vi      *viewInfo
+	method  *ast.FuncDecl
+	pk      *packages.Package
+	idxE    ast.Expr
+	idx     int64
 	isConst bool
-	set    bool
-	node   ast.Node  // the Get/Set call or index expression
-	wrap   *types.Func // As* wrapper applied directly to it (getter sites)
-	setArg ast.Expr
+	set     bool
+	node    ast.Node    // the Get/Set call or index expression
+	wrap    *types.Func // As* wrapper applied directly to it (getter sites)
+	setArg  ast.Expr
 }
 
 func findIndexSites(p *Prog, views map[*types.Named]*viewInfo) []indexSite {
@@ -1107,7 +1107,7 @@ func ruleLitCopy(c *Ctx) {
 			// group entries by source object
 			type ent struct {
 				key, src string
-				pos     token.Pos
+				pos      token.Pos
 			}
 			bySrc := map[types.Object][]ent{}
 			srcType := map[types.Object]types.Type{}
